@@ -412,80 +412,62 @@ func (r *renderState) postInline(source []byte, inline *Inline) bool {
 // It cannot use a conventional HTML parser,
 // since raw HTML in Markdown may be incomplete or start in the middle of a tag.
 func (r *renderState) filterRaw(rawHTML []byte) {
-	const (
-		copyState = iota
-		commentState
-		piState
-		declState
-		cdataState
-	)
-	state := copyState
+	// Every '<' that could open a tag is considered, wherever it occurs.
+	// The scanner deliberately does not try to skip over
+	// comments, declarations, CDATA sections, or processing instructions:
+	// whether a browser is inside one of those at this point
+	// depends on everything written before this piece of raw HTML
+	// (an earlier line of the same block, or an earlier block),
+	// and their end rules differ from CommonMark's
+	// ("<!-->" is a complete comment; a CDATA section ends at the first '>').
+	// Escaping a '<' inside a comment is harmless.
 	copyStart := 0
 	for i := 0; i < len(rawHTML); {
-		switch state {
-		case copyState:
-			if rawHTML[i] == '<' {
-				switch {
-				case hasBytePrefix(rawHTML[i:], cdataPrefix):
-					state = cdataState
-					i += len(cdataPrefix)
-				case hasBytePrefix(rawHTML[i:], htmlCommentPrefix):
-					state = commentState
-					i += len(htmlCommentPrefix)
-				case hasHTMLDeclarationPrefix(rawHTML[i:]):
-					state = declState
-					i += len("<!x")
-				default:
-					tagNameStart := i + 1
-					tagEnd := len(rawHTML)
-					if j := bytes.IndexByte(rawHTML[tagNameStart:], '>'); j >= 0 {
-						tagEnd = tagNameStart + j + len(">")
-					}
-					tagNameEnd := tagNameStart + htmlTagNameEnd(rawHTML[tagNameStart:tagEnd])
-					tagName := maybeLower(rawHTML[tagNameStart:tagNameEnd], &r.lowerBuf)
-					if r.FilterTag(tagName) {
-						r.dst = append(r.dst, rawHTML[copyStart:i]...)
-						r.dst = append(r.dst, "&lt;"...)
-						r.dst = append(r.dst, rawHTML[tagNameStart:tagEnd]...)
-						copyStart = tagEnd
-					}
-					i = tagEnd
-				}
-			} else {
-				i++
-			}
-		case commentState:
-			if hasBytePrefix(rawHTML[i:], htmlCommentSuffix) {
-				state = copyState
-				i += len(htmlCommentSuffix)
-			} else {
-				i++
-			}
-		case piState:
-			if hasBytePrefix(rawHTML[i:], processingInstructionSuffix) {
-				state = copyState
-				i += len(processingInstructionSuffix)
-			} else {
-				i++
-			}
-		case declState:
-			if rawHTML[i] == '>' {
-				state = copyState
-			}
+		if rawHTML[i] != '<' || i+1 >= len(rawHTML) || !(isASCIILetter(rawHTML[i+1]) || rawHTML[i+1] == '/') {
+			// A '<' that is not followed by a letter or '/' does not start a tag.
 			i++
-		case cdataState:
-			if hasBytePrefix(rawHTML[i:], cdataSuffix) {
-				state = copyState
-				i += len(cdataSuffix)
-			} else {
-				i++
-			}
-		default:
-			panic("unreachable")
+			continue
+		}
+		// Start tag or end tag.
+		// As for the end tags the renderer writes itself,
+		// the name of an end tag is passed with its leading slash.
+		tagNameStart := i + 1
+		tagEnd := len(rawHTML)
+		if j := bytes.IndexByte(rawHTML[tagNameStart:], '>'); j >= 0 {
+			tagEnd = tagNameStart + j + len(">")
+		}
+		tagNameEnd := tagNameStart + filterTagNameEnd(rawHTML[tagNameStart:tagEnd])
+		tagName := maybeLower(rawHTML[tagNameStart:tagNameEnd], &r.lowerBuf)
+		if r.FilterTag(tagName) {
+			r.dst = append(r.dst, rawHTML[copyStart:i]...)
+			r.dst = append(r.dst, "&lt;"...)
+			copyStart = tagNameStart
+			// With its angle bracket escaped, the rest of the tag is text
+			// and may itself contain tags.
+			i = tagNameStart
+		} else {
+			// Everything up to the first '>' is part of the tag.
+			i = tagEnd
 		}
 	}
 
 	r.dst = append(r.dst, rawHTML[copyStart:]...)
+}
+
+// filterTagNameEnd returns the end of the tag name at the beginning of b
+// as an HTML tokenizer reads it:
+// the name extends to the first whitespace, '/', or '>'.
+func filterTagNameEnd(b []byte) int {
+	for i, c := range b {
+		if c == '/' && i == 0 {
+			// End tag.
+			continue
+		}
+		if c == ' ' || c == '\t' || c == '\n' || c == '\f' || c == '\r' || c == '/' || c == '>' {
+			return i
+		}
+	}
+	return len(b)
 }
 
 func appendAltText(dst []byte, source []byte, parent *Inline) []byte {
